@@ -589,13 +589,18 @@ impl SlabRouter {
     ///
     /// Returns an error if snapshot save or WAL operations fail.
     pub fn checkpoint(&self, snapshot_path: &Path) -> Result<u64, SlabRouterError> {
+        // The log mutex is held from the fsync to the truncation. `put_durable` and
+        // `delete_durable` take it before they log, so no durable write can land between the
+        // moment the snapshot is taken and the moment the log is truncated: such a write would
+        // be acknowledged, absent from the snapshot and wiped from the log, i.e. lost by the
+        // next crash.
+        let mut wal_guard = self.wal.as_ref().map(Mutex::lock);
+
         // Everything the snapshot will contain must already be in the log on disk. With
         // `Batched`/`Manual` sync a crash right after the snapshot is in place would otherwise
         // replay a stale log prefix over the newer snapshot and revert keys to older values.
-        if let Some(wal_mutex) = &self.wal {
-            wal_mutex
-                .lock()
-                .fsync()
+        if let Some(wal) = wal_guard.as_mut() {
+            wal.fsync()
                 .map_err(|e| SlabRouterError::WalError(format!("Failed to sync WAL: {e}")))?;
         }
 
@@ -606,9 +611,7 @@ impl SlabRouter {
         let checkpoint_id = self.checkpoint_counter.fetch_add(1, Ordering::SeqCst);
 
         // Log checkpoint marker and truncate WAL
-        if let Some(wal_mutex) = &self.wal {
-            let mut wal = wal_mutex.lock();
-
+        if let Some(wal) = wal_guard.as_mut() {
             let entry = WalEntry::Checkpoint {
                 snapshot_id: checkpoint_id,
             };
@@ -619,6 +622,7 @@ impl SlabRouter {
             wal.truncate()
                 .map_err(|e| SlabRouterError::WalError(format!("Failed to truncate WAL: {e}")))?;
         }
+        drop(wal_guard);
 
         Ok(checkpoint_id)
     }
